@@ -22,6 +22,7 @@ func runC14(c *Ctx) {
 	c.Clause("C14.3 the address-validated flag given to a new server connection is validateToken's result (or false); validateToken's address and age checks each return false; Retry connection IDs are taken from the token only for Retry tokens")
 	c.Clause("C14.4 DecodeToken has no fallback: AEAD failure, ASN.1 failure and trailing bytes are errors; the protector returns aead.Open's result as is")
 	c.Clause("C14.5 the budget counts real datagram sizes: ReceivedBytes gets the dequeued datagram's Size() = len(data); every SentPacket size in the root package is a packet's recorded length, which is len(raw) of the slice by which the packet buffer grew")
+	c.Clause("C14.6 every sendQueue.Send / conn.Write in a method of Conn is preceded by the registration of the packet with the sent-packet handler (the charge against the budget)")
 	c.NotCovered("the running 3x inequality over arrival/loss histories and the '+ one packet' slack")
 	c.NotCovered("cryptographic strength of token sealing")
 
@@ -31,6 +32,7 @@ func runC14(c *Ctx) {
 	c.rule("C14.3", func() { c14Encode(c) })
 	c.rule("C14.4", func() { c14Token(c) })
 	c.rule("C14.5", func() { c14AccountingOrigins(c) })
+	c.rule("C14.6", func() { c14EverySendIsCharged(c) })
 }
 
 func c14Limit(c *Ctx) {
